@@ -77,6 +77,13 @@ def random_phens(rng, raising=False):
             pats.append(random_pattern(rng, f'p{c}', raising=raising))
             c += 1
         phens.append((f'ph{i}', pats))
+    # the same pattern (one object: predlang shares equal pattern texts) in two phenomena
+    if len(phens) == 2 and rng.random() < 0.3:
+        import copy
+        if rng.random() < 0.5:
+            phens[0][1][0]['singleton'] = True
+        shared = copy.deepcopy(phens[0][1][0])
+        phens[1] = (phens[1][0], [shared] + [q for q in phens[1][1][1:] if q['name'] != shared['name']])
     return phens
 
 
